@@ -62,7 +62,7 @@ Loss == /\ Is("Loss") /\ l' = l + 1
 \* every registered function prototype at dims 1..32 on real-valued points: the driver's oracles (central differences along a random
 \* direction for smooth functions, the convexity inequality with a relative tolerance) - environment predicates
 \* (non-smooth prototypes: the subgradient is the derivative wherever the one-sided difference quotients agree)
-Generic == /\ Is("Generic") /\ l' = l + 1 /\ Ev.valueOnlySame /\ ((Ev.smooth \/ Ev.differentiable) => Ev.gradOK) /\ (Ev.convex => Ev.convexOK)
+Generic == /\ Is("Generic") /\ l' = l + 1 /\ Ev.valueOnlySame /\ ((Ev.smooth \/ Ev.differentiable) => Ev.gradOK) /\ (Ev.convex => (Ev.convexOK /\ Ev.strongOK))
 Next == Stencil \/ Convex \/ Loss \/ Generic
 Init == l = 1
 Spec == Init /\ [][Next]_l
